@@ -54,6 +54,8 @@ type offer struct {
 	ch    *schan
 	v     value
 	taken bool
+	sel   *selWait // set when the offer is one send case of a parked select
+	idx   int
 }
 
 type epoch struct {
@@ -517,6 +519,103 @@ func (s *scheduler) waitUntil(i *interpreter, wg *value, cond func() bool, what 
 
 // ---- channels (exact Go semantics: FIFO buffer, rendezvous, close)
 
+// selWait is a parked select: it registers one offer per send case and one waiter per receive
+// case; whichever counterpart arrives first completes it (fired = case index) and withdraws the
+// other registrations.
+type selWait struct {
+	fired  int
+	recvV  value
+	recvOk bool
+	offers []*offer
+	waits  []*rwaiter
+}
+
+// rwaiter is a parked receiver (plain receive, or one receive case of a parked select).
+type rwaiter struct {
+	ch   *schan
+	v    value
+	done bool
+	sel  *selWait
+	idx  int
+}
+
+func removeWaiter(c *schan, w *rwaiter) {
+	for k, o := range c.waiters {
+		if o == w {
+			c.waiters = append(append([]*rwaiter{}, c.waiters[:k]...), c.waiters[k+1:]...)
+			return
+		}
+	}
+}
+
+// completeSel marks a parked select as completed through case idx and withdraws everything else
+// it had registered.
+func completeSel(sw *selWait, idx int) {
+	sw.fired = idx
+	for _, o := range sw.offers {
+		removeOffer(o.ch, o)
+	}
+	for _, w := range sw.waits {
+		removeWaiter(w.ch, w)
+	}
+}
+
+// pick chooses one of n equally enabled alternatives; every alternative is explored.
+func (s *scheduler) pick(i *interpreter, n int) int {
+	if n <= 1 {
+		return 0
+	}
+	p := i.path
+	if p.pos < len(p.prefix) {
+		d := p.prefix[p.pos]
+		p.pos++
+		if d.Kind != DecPick || int(d.V) >= n {
+			panic(abort{kind: "inconclusive", msg: "nondeterministic replay: expected pick"})
+		}
+		p.decisions = append(p.decisions, d)
+		return int(d.V)
+	}
+	for k := 1; k < n; k++ {
+		np := make([]Decision, len(p.decisions)+1)
+		copy(np, p.decisions)
+		np[len(p.decisions)] = Decision{Kind: DecPick, V: int64(k)}
+		i.exp.push(workItem{prefix: np, model: p.model})
+	}
+	p.decisions = append(p.decisions, Decision{Kind: DecPick, V: 0})
+	return 0
+}
+
+// takeOffer removes the first parked sender's offer and marks it taken (completing its select).
+func takeOffer(c *schan) value {
+	of := c.offers[0]
+	c.offers = append([]*offer{}, c.offers[1:]...)
+	of.taken = true
+	if of.sel != nil {
+		completeSel(of.sel, of.idx)
+	}
+	return of.v
+}
+
+// sendNow performs a send that is known not to block: hand the value to a parked receiver, or
+// put it into the buffer.
+func (i *interpreter) sendNow(c *schan, v value) {
+	s := i.sched
+	s.chvc[c] = joined(s.chvc[c], s.cur.vc)
+	if len(c.waiters) > 0 {
+		w := c.waiters[0]
+		c.waiters = append([]*rwaiter{}, c.waiters[1:]...)
+		w.v, w.done = v, true
+		if w.sel != nil {
+			w.sel.recvV, w.sel.recvOk = v, true
+			completeSel(w.sel, w.idx)
+		}
+		return
+	}
+	old := c.buf
+	i.logUndo(func() { c.buf = old })
+	c.buf = append(append([]value{}, c.buf...), v)
+}
+
 func (i *interpreter) chanSend(ch value, v value) {
 	c := ch.(*schan)
 	s := i.sched
@@ -533,11 +632,8 @@ func (i *interpreter) chanSend(ch value, v value) {
 		panic("send on closed channel")
 	}
 	me := s.cur
-	if len(c.buf) < c.capacity {
-		old := c.buf
-		i.logUndo(func() { c.buf = old })
-		c.buf = append(append([]value{}, c.buf...), v)
-		s.chvc[c] = joined(s.chvc[c], me.vc)
+	if len(c.waiters) > 0 || len(c.buf) < c.capacity {
+		i.sendNow(c, v)
 		return
 	}
 	// full or unbuffered: post an offer and park until a receiver takes it (or the channel is closed)
@@ -580,29 +676,20 @@ func (i *interpreter) chanRecv(ch value) (value, bool) {
 	if c == nil {
 		s.block(i, func() bool { return true }, "receive on nil channel")
 	}
-	s.block(i, func() bool { return len(c.buf) == 0 && len(c.offers) == 0 && !c.closed }, "recv (parked)")
-	s.cur.vc.join(s.chvc[c])
-	if len(c.buf) > 0 {
-		old := c.buf
-		i.logUndo(func() { c.buf = old })
-		v := c.buf[0]
-		c.buf = append([]value{}, c.buf[1:]...)
-		// a parked sender can now move its value into the buffer
-		if len(c.offers) > 0 {
-			of := c.offers[0]
-			c.offers = append([]*offer{}, c.offers[1:]...)
-			c.buf = append(c.buf, of.v)
-			of.taken = true
+	if len(c.buf) == 0 && len(c.offers) == 0 && !c.closed {
+		// nothing to take: park as a waiting receiver; a sender hands its value over directly
+		w := &rwaiter{ch: c}
+		c.waiters = append(c.waiters, w)
+		s.block(i, func() bool { return !w.done && !c.closed }, "recv (parked)")
+		s.cur.vc.join(s.chvc[c])
+		if w.done {
+			return w.v, true
 		}
-		return v, true
+		removeWaiter(c, w)
+		return nil, false // closed while parked
 	}
-	if len(c.offers) > 0 {
-		of := c.offers[0]
-		c.offers = append([]*offer{}, c.offers[1:]...)
-		of.taken = true
-		return of.v, true
-	}
-	return nil, false // closed and drained
+	s.cur.vc.join(s.chvc[c])
+	return i.recvNoYield(c)
 }
 
 func (i *interpreter) chanClose(ch value) {
@@ -659,60 +746,108 @@ func (i *interpreter) seqChanRecv(c *schan) (value, bool) {
 	panic(abort{kind: "deadlock", msg: "receive would block (single thread)"})
 }
 
-// doSelect: ready cases are tried in source order (default if none). With the
-// scheduler on, a blocking select parks until some case is ready.
+// doSelect: among the ready cases one is chosen nondeterministically (every choice is explored);
+// default if none is ready. With the scheduler on, a blocking select registers an offer / a waiter
+// for each of its cases and parks until a counterpart completes one of them or a close makes a
+// case ready.
 func (i *interpreter) doSelect(fr *frame, instr *ssa.Select) value {
 	s := i.sched
 	threaded := s != nil && s.enabled && i.path != nil
-	ready := func() int {
+	chans := make([]*schan, len(instr.States))
+	for n, st := range instr.States {
+		chans[n], _ = fr.get(st.Chan).(*schan)
+	}
+	ready := func() []int {
+		var out []int
 		for n, st := range instr.States {
-			c := fr.get(st.Chan).(*schan)
+			c := chans[n]
 			if c == nil {
 				continue
 			}
 			if st.Dir == types.RecvOnly {
 				if len(c.buf) > 0 || c.closed || len(c.offers) > 0 {
-					return n
+					out = append(out, n)
 				}
 			} else {
-				if c.closed || len(c.buf) < c.capacity {
-					return n
+				if c.closed || len(c.buf) < c.capacity || (threaded && len(c.waiters) > 0) {
+					out = append(out, n)
 				}
 			}
 		}
-		return -1
+		return out
 	}
 	if threaded {
 		s.tick()
 		s.yield(i, "select")
 	}
-	chosen := ready()
-	if chosen < 0 && instr.Blocking {
+	chosen := -1
+	var recv value
+	recvOk := false
+	completed := false
+	rs := ready()
+	if len(rs) == 0 && instr.Blocking {
 		if !threaded {
 			panic(abort{kind: "deadlock", msg: "select would block (single thread)"})
 		}
-		s.block(i, func() bool { return ready() < 0 }, "select (parked)")
-		chosen = ready()
+		sw := &selWait{fired: -1}
+		for n, st := range instr.States {
+			c := chans[n]
+			if c == nil {
+				continue
+			}
+			if st.Dir == types.RecvOnly {
+				w := &rwaiter{ch: c, sel: sw, idx: n}
+				c.waiters = append(c.waiters, w)
+				sw.waits = append(sw.waits, w)
+			} else {
+				of := &offer{ch: c, v: fr.get(st.Send), sel: sw, idx: n}
+				c.offers = append(c.offers, of)
+				sw.offers = append(sw.offers, of)
+				s.chvc[c] = joined(s.chvc[c], s.cur.vc)
+			}
+		}
+		anyClosed := func() bool {
+			for _, c := range chans {
+				if c != nil && c.closed {
+					return true
+				}
+			}
+			return false
+		}
+		s.block(i, func() bool { return sw.fired < 0 && !anyClosed() }, "select (parked)")
+		if sw.fired >= 0 {
+			chosen, recv, recvOk, completed = sw.fired, sw.recvV, sw.recvOk, true
+			if c := chans[chosen]; c != nil {
+				s.cur.vc.join(s.chvc[c])
+			}
+		} else {
+			completeSel(sw, -1) // withdraw the registrations; a close made some case ready
+			rs = ready()
+		}
 	}
-	var recv value
-	recvOk := false
-	if chosen >= 0 {
+	if !completed && len(rs) > 0 {
+		k := 0
+		if threaded {
+			k = s.pick(i, len(rs))
+		}
+		chosen = rs[k]
 		st := instr.States[chosen]
-		c := fr.get(st.Chan).(*schan)
+		c := chans[chosen]
 		if st.Dir == types.RecvOnly {
-			recv, recvOk = i.recvNoYield(c)
 			if threaded {
 				s.cur.vc.join(s.chvc[c])
 			}
+			recv, recvOk = i.recvNoYield(c)
 		} else {
 			if c.closed {
 				panic("send on closed channel")
 			}
-			old := c.buf
-			i.logUndo(func() { c.buf = old })
-			c.buf = append(append([]value{}, c.buf...), fr.get(st.Send))
 			if threaded {
-				s.chvc[c] = joined(s.chvc[c], s.cur.vc)
+				i.sendNow(c, fr.get(st.Send))
+			} else {
+				old := c.buf
+				i.logUndo(func() { c.buf = old })
+				c.buf = append(append([]value{}, c.buf...), fr.get(st.Send))
 			}
 		}
 	}
@@ -731,6 +866,8 @@ func (i *interpreter) doSelect(fr *frame, instr *ssa.Select) value {
 	return r
 }
 
+// recvNoYield takes what is available on c: a buffered value (letting a parked sender refill the
+// buffer), a parked sender's value, or (closed and drained) nothing.
 func (i *interpreter) recvNoYield(c *schan) (value, bool) {
 	if len(c.buf) > 0 {
 		old := c.buf
@@ -738,18 +875,12 @@ func (i *interpreter) recvNoYield(c *schan) (value, bool) {
 		v := c.buf[0]
 		c.buf = append([]value{}, c.buf[1:]...)
 		if len(c.offers) > 0 {
-			of := c.offers[0]
-			c.offers = append([]*offer{}, c.offers[1:]...)
-			c.buf = append(c.buf, of.v)
-			of.taken = true
+			c.buf = append(c.buf, takeOffer(c))
 		}
 		return v, true
 	}
 	if len(c.offers) > 0 {
-		of := c.offers[0]
-		c.offers = append([]*offer{}, c.offers[1:]...)
-		of.taken = true
-		return of.v, true
+		return takeOffer(c), true
 	}
 	return nil, false
 }
